@@ -12,7 +12,7 @@ import types
 
 from ..core.errors import Unsupported
 from . import scalar as SC
-from . import symnp, symlinalg, symrandom
+from . import symnp, symlinalg, symrandom, symjoblib
 
 REPO = os.environ.get("QVERIF_REPO", "/repo")
 
@@ -57,6 +57,7 @@ class Twin:
         self.scipy = sp
         self.special = {"numpy": np, "numpy.linalg": np.linalg, "numpy.random": np.random, "scipy": sp,
                         "scipy.sparse": sparse, "scipy.linalg": linalg, "scipy.stats": stats}
+        self.special["joblib"] = symjoblib.make_module()
         self.builtins = dict(vars(builtins))
         self.builtins["__import__"] = self._import
         self.builtins["type"] = _TwinType
@@ -91,6 +92,8 @@ class Twin:
                             raise Unsupported(f"{name}.{f} is not modelled")
                 return mod
             return self.special[root]
+        if name == "joblib":
+            return self.special["joblib"]
         if root == "quara":
             mod = self.load(name)
             if fromlist:
